@@ -39,6 +39,7 @@ import (
 	"sort"
 	"strconv"
 	"strings"
+	"sync"
 	"time"
 
 	"github.com/inspirer/textmapper/compiler"
@@ -258,10 +259,10 @@ func (c *caseRef) Desc() string {
 const twoDevMaxTokens = 60
 
 // quickBigSeed: seeds above this many tokens get only deletions/duplications/swaps plus a reduced
-// replacement set in the quick tier (all replacements in thorough).
+// replacement set in the quick tier (all replacements in thorough). Only parsers/tm/textmapper.tm is that big.
 const quickBigSeed = 1000
 
-var quickBigReps = map[string]bool{";": true, ":": true, "|": true, "(": true, ")": true, "{}": true, "a": true, "%": true}
+var quickBigReps = map[string]bool{";": true, "(": true, "a": true}
 
 // enumerate calls visit for every case of the tier in the fixed order. visit returns false to stop.
 // The caseRef (and its slices) is only valid during the call.
@@ -376,11 +377,15 @@ func installHook() {
 	log.SetOutput(logHook{})
 }
 
+var closureRE = regexp.MustCompile(`(\.func[0-9]+|\.[0-9]+|\.gowrap[0-9]+)+$`)
+
+// shortFunc turns a qualified function name into "pkg.Func" / "pkg.(*T).Method"; closure suffixes
+// (.func2, .func1.1) are dropped because their numbering changes with unrelated edits.
 func shortFunc(fn string) string {
 	if i := strings.LastIndex(fn, "/"); i >= 0 {
 		fn = fn[i+1:]
 	}
-	return fn
+	return closureRE.ReplaceAllString(fn, "")
 }
 
 // stackSite returns the innermost textmapper function in a Go stack dump ("pkg.Func" or
@@ -409,16 +414,99 @@ var normRE = regexp.MustCompile(`'[^']*'|"[^"]*"|[0-9]+|\([^)]*\)`)
 
 // msgClass reduces a diagnostic to its message template (names and numbers removed).
 func msgClass(msg string) string {
+	if t := templateOf(msg); t != "" {
+		return t
+	}
 	if i := strings.IndexByte(msg, '\n'); i >= 0 {
 		msg = msg[:i]
 	}
 	words := strings.Fields(normRE.ReplaceAllString(msg, "#"))
-	// symbol names are single words without a fixed spelling: keep the words of the template only
-	// approximately (first 6 words), which is stable for a given Errorf site.
 	if len(words) > 6 {
 		words = words[:6]
 	}
-	return strings.Join(words, " ")
+	return "~" + strings.Join(words, " ")
+}
+
+// Message templates: the string literals of the compiler packages under check that look like
+// diagnostics. A message is classified by the longest literal whose verb-separated pieces occur in
+// it in order, i.e. by the format string of the Errorf call that produced it. This keeps violation
+// keys free of symbol names.
+type msgTemplate struct {
+	format string
+	pieces []string
+	weight int
+}
+
+var (
+	templates     []msgTemplate
+	templatesOnce sync.Once
+	templateCache = map[string]string{}
+	literalRE     = regexp.MustCompile("\"(?:[^\"\\\\\n]|\\\\.)*\"")
+	verbRE        = regexp.MustCompile(`%[-+# 0-9.]*[a-zA-Z]`)
+)
+
+func loadTemplates() {
+	for _, dir := range []string{"compiler", "syntax", "lalr", "lex", "grammar"} {
+		files, _ := filepath.Glob(filepath.Join(core.RepoDir(), dir, "*.go"))
+		sort.Strings(files)
+		for _, f := range files {
+			if strings.HasSuffix(f, "_test.go") {
+				continue
+			}
+			data, err := os.ReadFile(f)
+			if err != nil {
+				continue
+			}
+			for _, lit := range literalRE.FindAllString(string(data), -1) {
+				v, err := strconv.Unquote(lit)
+				if err != nil || len(v) < 8 || !strings.Contains(v, " ") {
+					continue
+				}
+				v = strings.ReplaceAll(v, "%%", "\x00")
+				var pieces []string
+				weight := 0
+				for _, p := range verbRE.Split(v, -1) {
+					p = strings.ReplaceAll(p, "\x00", "%")
+					if p != "" {
+						pieces = append(pieces, p)
+						weight += len(p)
+					}
+				}
+				if weight >= 8 {
+					templates = append(templates, msgTemplate{strings.ReplaceAll(v, "\x00", "%%"), pieces, weight})
+				}
+			}
+		}
+	}
+	sort.SliceStable(templates, func(i, j int) bool { return templates[i].weight > templates[j].weight })
+}
+
+func templateOf(msg string) string {
+	templatesOnce.Do(loadTemplates)
+	if t, ok := templateCache[msg]; ok {
+		return t
+	}
+	res := ""
+	for _, t := range templates {
+		rest := msg
+		ok := true
+		for _, p := range t.pieces {
+			i := strings.Index(rest, p)
+			if i < 0 {
+				ok = false
+				break
+			}
+			rest = rest[i+len(p):]
+		}
+		if ok {
+			res = t.format
+			break
+		}
+	}
+	if len(templateCache) < 100000 {
+		templateCache[msg] = res
+	}
+	return res
 }
 
 func lineCol(text string, off int) (int, int) {
@@ -732,6 +820,13 @@ func run(c *core.Ctx) {
 			t0 := time.Now()
 			res := runCase(s.Text)
 			fmt.Printf("%-28s toks=%5d bytes=%6d compile=%8.2fms outcome=%s findings=%d\n", s.Name, len(s.toks), len(s.Text), float64(time.Since(t0).Microseconds())/1000, res.outcome, len(res.findings))
+			if os.Getenv("C22_PROBE") == "3" && len(s.toks) < 200 {
+				t1 := time.Now()
+				for i := 0; i < 300; i++ {
+					runCase(s.Text)
+				}
+				fmt.Printf("    steady: %.3f ms\n", float64(time.Since(t1).Microseconds())/300000)
+			}
 			if os.Getenv("C22_PROBE") == "2" && !strings.HasPrefix(s.Name, "tmerr-") {
 				_, err := compiler.Compile(context.Background(), s.Name, s.Text, compiler.Params{CheckOnly: true})
 				status.Print(os.Stdout, err)
@@ -765,6 +860,26 @@ func run(c *core.Ctx) {
 		})
 		return text, desc
 	}
+	// Violations are reported after the run, lowest case index first, so that the recorded
+	// counterexample of a key does not depend on worker scheduling.
+	type pending struct {
+		idx   int
+		what  string
+		rc    replayCase
+		count int
+	}
+	found := map[string]*pending{}
+	addViolation := func(idx int, key, what string, rc replayCase) {
+		p := found[key]
+		if p == nil {
+			found[key] = &pending{idx, what, rc, 1}
+			return
+		}
+		p.count++
+		if idx < p.idx {
+			p.idx, p.what, p.rc = idx, what, rc
+		}
+	}
 	c.RunShards(core.ShardOpts{
 		N:       16,
 		Args:    []string{strconv.FormatInt(deadline.Unix(), 10)},
@@ -778,8 +893,7 @@ func run(c *core.Ctx) {
 			}
 			switch r.T {
 			case "v":
-				what := r.What + "\ncase: " + r.Desc
-				c.Violate(r.Key, what, replayCase{Desc: r.Desc, Text: r.Text, CheckOnly: r.CheckOnly})
+				addViolation(r.Idx, r.Key, r.What+"\ncase: "+r.Desc, replayCase{Desc: r.Desc, Text: r.Text, CheckOnly: r.CheckOnly})
 			case "s":
 				c.Eval(int64(r.N))
 				for k, v := range r.Out {
@@ -810,9 +924,20 @@ func run(c *core.Ctx) {
 			if len(tail) > 2500 {
 				tail = tail[len(tail)-2500:]
 			}
-			c.Violate(deathKey(how, tail), fmt.Sprintf("worker died (%s) while compiling case %d (%s); stderr tail:\n%s", how, idx, d, tail), replayCase{Desc: d, Text: text})
+			addViolation(idx, deathKey(how, tail), fmt.Sprintf("worker died (%s) while compiling case %d (%s); stderr tail:\n%s", how, idx, d, tail), replayCase{Desc: d, Text: text})
 		},
 	})
+	var keys []string
+	for k := range found {
+		keys = append(keys, k)
+	}
+	sort.Slice(keys, func(i, j int) bool { return found[keys[i]].idx < found[keys[j]].idx })
+	for _, k := range keys {
+		p := found[k]
+		for i := 0; i < p.count; i++ {
+			c.Violate(k, p.what, p.rc)
+		}
+	}
 	if cappedAt >= 0 {
 		c.Capped(fmt.Sprintf("time budget: enumeration stopped near case %d of %d", cappedAt, planned))
 	}
